@@ -32,6 +32,7 @@ type Ctx struct {
 
 	// scheduler / iteration policy hooks owned by the property code
 	yieldFn    func(site int)
+	blockedFn  func()
 	mapOrderFn func(site, n int) []int
 	disk       *SimDisk
 }
@@ -128,6 +129,19 @@ func installHooks(c *Ctx) {
 			if c.yieldFn != nil {
 				c.yieldFn(site)
 			}
+		},
+		Blocked: func() {
+			c.Steps++
+			if c.Steps > c.StepLimit {
+				panic(stepLimit{})
+			}
+			c.C["lock_contention_yields"]++
+			if c.blockedFn != nil {
+				c.blockedFn()
+				return
+			}
+			// no scheduler running: a lock that cannot be taken by the only task is a self-deadlock
+			panic(stepLimit{})
 		},
 		MapOrder: func(site, n int) []int {
 			if c.mapOrderFn != nil {
@@ -229,12 +243,12 @@ func deepCopyValue(v reflect.Value) reflect.Value {
 }
 
 func resetPackageState() {
+	// sync.* variables are reset too (to their unused, start-of-process value): data
+	// initialised under a sync.Once must not be reset while the Once stays "done"
 	for _, s := range pristine {
-		if isSyncType(s.val.Type()) {
-			continue
-		}
 		s.ptr.Elem().Set(deepCopyValue(s.val))
 	}
+	verifsim.ResetSync()
 }
 
 func isSyncType(t reflect.Type) bool {
